@@ -341,6 +341,10 @@ func fatal(out *sim.Outcome, o *Obs, which string) bool {
 		out.Violate("no-result", "no-result", "%s run: Scan returned nil", which)
 		return true
 	}
+	if o.ExtPanic != "" {
+		// not fatal for the comparison: the engine contained it and the scan went on
+		out.Violate("panic", "panic:"+o.ExtPanicExt+":"+o.ExtPanicSite, "%s run: Extract of %s panicked (the engine recovered it and reported it as this extractor's error, the scan went on): %s\n%s", which, o.ExtPanicExt, o.ExtPanic, o.ExtPanicStack)
+	}
 	return false
 }
 
